@@ -267,3 +267,17 @@ void console_process(console_t *c, char d)
 	} while (s == PT_YIELDED);
 }
 
+
+#ifdef LIBRFN_VERIF
+/* Verification hook (compiled only with -DLIBRFN_VERIF; see /verif): restore
+ * the static command table to its built-in commands so that many registration
+ * scenarios can be run in one process.
+ */
+void console_verif_reset(void)
+{
+	memset(cmd_table, 0, sizeof(cmd_table));
+	cmd_table[0] = &cmd_echo;
+	cmd_table[1] = &cmd_help;
+	cmd_table[2] = &cmd_unknown;
+}
+#endif
